@@ -314,3 +314,68 @@ func H_hagrid_determinism() {
 	verifAssert("determinism.extract", e1 == nil && e2 == nil && bytes.Equal(x1, x2))
 	verifAssert("determinism.logs_after", bytes.Equal(verifHashLog(t1), verifHashLog(t2)))
 }
+
+// verifBL is a base.BytesLike value for the generic helper transcripts.Append.
+type verifBL struct{ b []byte }
+
+func (v verifBL) Bytes() []byte { return v.b }
+
+func verifMkVals(maxVals, maxLen int) []verifBL {
+	var vs []verifBL
+	k := verifLen(0, maxVals)
+	for i := 0; i < k; i++ {
+		vs = append(vs, verifBL{verifBytes(verifLen(0, maxLen))})
+	}
+	return vs
+}
+
+func verifSameVals(a, b []verifBL) bool {
+	if len(a) != len(b) {
+		return false
+	}
+	d := uint64(0)
+	for i := range a {
+		if len(a[i].b) != len(b[i].b) {
+			return false
+		}
+		d += verifB2U(!bytes.Equal(a[i].b, b[i].b))
+	}
+	return d == 0
+}
+
+// H_hagrid_append_helper (C19, "a message boundary, the order or number of messages"): the generic
+// helper transcripts.Append[T](tape, label, xs...) on the real hagrid transcript. Two calls with
+// value lists xs, ys (0..2 values of length 0..2, contents symbolic) under labels of length 0..1:
+// equal logs imply the same value list (count, boundaries, contents) and - for a non-empty list -
+// the same label; a non-empty list changes the log; the same list under the same label gives the
+// same log. Nothing is demanded about HOW the helper frames the values.
+func H_hagrid_append_helper() {
+	la, lb := verifBytes(verifLen(0, 1)), verifBytes(verifLen(0, 1))
+	xs, ys := verifMkVals(2, 2), verifMkVals(2, 2)
+	t1, t2 := NewTranscript("n"), NewTranscript("n")
+	l0 := append([]byte{}, verifHashLog(t1)...)
+	transcripts.Append(t1, string(la), xs...)
+	transcripts.Append(t2, string(lb), ys...)
+	l1, l2 := verifHashLog(t1), verifHashLog(t2)
+	verifReach("hagrid_append_helper")
+	same := verifB2U(verifSameVals(xs, ys))
+	sameLabel := verifB2U(len(la) == len(lb) && bytes.Equal(la, lb))
+	if len(xs) == 0 {
+		sameLabel = 1 // without values the label is never absorbed
+	}
+	verifAssert("append_helper.equal_logs_imply_same_values_and_label", verifB2U(bytes.Equal(l1, l2)) <= same&sameLabel)
+	verifAssert("append_helper.same_values_and_label_imply_equal_logs", same&sameLabel <= verifB2U(bytes.Equal(l1, l2)))
+	verifAssert("append_helper.values_are_absorbed", len(xs) == 0 || !bytes.Equal(l1, l0))
+	var nilTape transcripts.Transcript
+	transcripts.Append(nilTape, string(la), xs...) // documented no-op
+}
+
+// H_hagrid_append_helper_MUSTFAIL: wrong twin (claims the split of bytes across values does not matter).
+func H_hagrid_append_helper_MUSTFAIL() {
+	x := verifBytes(2)
+	t1, t2 := NewTranscript("n"), NewTranscript("n")
+	transcripts.Append(t1, "l", verifBL{x[0:1]}, verifBL{x[1:2]})
+	transcripts.Append(t2, "l", verifBL{x[0:2]}, verifBL{nil})
+	verifReach("hagrid_append_helper_mustfail")
+	verifAssert("append_helper.wrong", bytes.Equal(verifHashLog(t1), verifHashLog(t2)))
+}
